@@ -475,6 +475,83 @@ class Planted(Part):
         return "K7" if mismatch.bucket == "planted:K7" else None
 
 
+class CodeBlocks(Part):
+    """<?python ?> blocks with invalid Python are invalid expressions too:
+    strict compilation fails, non-strict compilation succeeds and the error
+    is raised iff the block is reached."""
+    name = "codeblocks"
+    examples = {"quick": 200, "thorough": 4000}
+
+    BAD = ["x = = 1", "def f(:\n  pass", "1 +", "for x in", "y = (1,"]
+
+    def strategy(self, tier):
+        return st.fixed_dictionaries({
+            "bad": st.sampled_from(self.BAD),
+            "guard": st.sampled_from(["none", "true", "false", "empty_repeat",
+                                      "var_true", "var_false",
+                                      "unused_macro"]),
+            "lead": st.sampled_from(["", "\n", "<p>a ${1 + 1}</p>\n  ",
+                                     "é日本 "]),
+            "second": st.booleans(),
+            "via": st.sampled_from(["option", "class"]),
+        })
+
+    def build(self, case):
+        block = "<?python %s ?>" % case["bad"]
+        g = case["guard"]
+        wrap = {"none": "%s", "true": '<i tal:condition="True">%s</i>',
+                "false": '<i tal:condition="False">%s</i>',
+                "empty_repeat": '<i tal:repeat="x ()">%s</i>',
+                "var_true": '<i tal:condition="flag">%s</i>',
+                "var_false": '<i tal:condition="not flag">%s</i>',
+                "unused_macro": '<i metal:define-macro="m" '
+                                'tal:condition="False">%s</i>'}[g]
+        src = "<r>" + case["lead"] + wrap % block + "<b>z</b>"
+        if case["second"]:
+            src += '<u tal:condition="False"><?python also bad = ?></u>'
+        src += "</r>"
+        reached = g in ("none", "true", "var_true")
+        return src, src.index(block) + len("<?python"), reached
+
+    def nontrivial(self, case):
+        return not self.build(case)[2]
+
+    def labels(self, case):
+        yield "reached" if self.build(case)[2] else "unreached"
+
+    def sample(self, case):
+        return {"source": self.build(case)[0]}
+
+    def oracle(self, case):
+        from chameleon.exc import ExpressionError
+        src, off, reached = self.build(case)
+        detail = {"source": src, "reached": reached}
+        o = run(make, src, True, case["via"])
+        if o.ok or not isinstance(o.exc, ExpressionError):
+            return Mismatch("codeblocks:strict compilation accepted an "
+                            "invalid block", dict(detail, outcome=o.brief()))
+        o = run(make, src, False, case["via"])
+        if not o.ok:
+            return Mismatch("codeblocks:non-strict construction raises " +
+                            o.exc_name, dict(detail, outcome=o.brief()))
+        r = run(o.value.render, flag=True)
+        if reached:
+            if r.ok or not isinstance(r.exc, ExpressionError):
+                return Mismatch("codeblocks:reached block did not raise",
+                                dict(detail, outcome=r.brief()))
+            if r.exc.offset != off or case["bad"].split("\n")[0] not in \
+                    str(r.exc.token):
+                return Mismatch("codeblocks:error does not point at the "
+                                "block", dict(detail, offset=r.exc.offset,
+                                              expected_offset=off))
+        elif not r.ok:
+            return Mismatch("codeblocks:unreached block raises " +
+                            r.exc_name, dict(detail, outcome=r.brief()))
+        elif not r.value.endswith("<b>z</b></r>"):
+            return Mismatch("codeblocks:output", dict(detail, got=r.value))
+        return None
+
+
 CHECK = Check(
     "C19", "exploration",
     rule=("valid: TALES-rich templates rendered under strict=True and "
@@ -483,7 +560,7 @@ CHECK = Check(
           "at random expression sites (whole expression, or a later pipe "
           "alternative), non-trivial = the bindings do NOT reach any planted "
           "site; distinct by sha1"),
-    parts=[Valid(), Planted()],
+    parts=[Valid(), Planted(), CodeBlocks()],
     assumptions=[
         "which of several planted sites strict compilation reports is not "
         "asserted (compilation order is not document order)",
